@@ -62,7 +62,7 @@ func c11Build(base []chordlang.Tok, ch *mc.Chooser) string {
 				if rt, _, _ := chordlang.Tokenize(prev.Val + t.Val); len(rt) != 2 || rt[0].Val != prev.Val || rt[1].Val != t.Val || prev.Kind == "UNDERSCORE" && false {
 					canon = " "
 				}
-				opts := []string{canon, " ", "\t", "\n", " ;x y\n", "  ", "\n\n", ";\n"}
+				opts := []string{canon, " ", "\t", "\n", " ;x y\n", "  ", "\n\n", ";\n", ";c\n  ", ";a\n\t;b\n", "\t;c\n\n", "\r\n"}
 				b.WriteString(opts[ch.Choose(len(opts))])
 			}
 		}
@@ -259,7 +259,7 @@ func c11Bases(p *chordlang.SLR, terms []string, maxTok int, syllable bool) [][]c
 }
 
 func runC11(e *Env) {
-	e.R.Rule = "base sentences = every accepted token sequence of chords.y up to the stated number of tokens with at least one chord, written in note-name and in degree notation; variant choice points: every inter-token gap outside braces (nothing/space, space, tab, newline, comment, two spaces, blank line, empty comment), leading whitespace after { = , inside braces, `_` before each non-numeric symbol, each duration as n / 0n / 00n, each accidental as # b or as the Unicode sign; all variants within the deviation bound; text conv must print the same bytes (same verdict) as for the canonical spelling. distinct = (sentence, choice vector); non-trivial = the variant differs from the canonical text and reads back as the same tokens"
+	e.R.Rule = "base sentences = every accepted token sequence of chords.y up to the stated number of tokens with at least one chord, written in note-name and in degree notation; variant choice points: every inter-token gap outside braces (nothing/space, space, tab, newline, comment, two spaces, blank line, empty comment, comment followed by indentation, two comments in a row, comment followed by a blank line, CR LF), leading whitespace after { = , inside braces, `_` before each non-numeric symbol, each duration as n / 0n / 00n, each accidental as # b or as the Unicode sign; all variants within the deviation bound; text conv must print the same bytes (same verdict) as for the canonical spelling. distinct = (sentence, choice vector); non-trivial = the variant differs from the canonical text and reads back as the same tokens"
 	e.R.Assume("metamorphic oracle; the documented tokeniser (ref/chordlang) decides which variants are spellings of the same tokens; the meaning of the canonical spelling itself is C03's/C05's business")
 	e.R.Exclude("whitespace before = , } inside braces (by the documented tokenisation it belongs to the key/value), comments inside braces (not recognised there), leading zeros on degree numbers (the statement names durations only)")
 	g, p, err := loadGrammar(e.RepoDir)
